@@ -42,7 +42,7 @@ def tasks(tier, seed):
         out.append({"key": f"graph/n{n}", "kind": "graph", "n": n})
     # nine players (coalition ids need more than one byte): the clauses that hold for ANY game by construction (singletons zero, grand one
     # or all zero, round trip, accessors) - no class assumption, so the 9 330 superadditivity constraints are not needed
-    out.append({"key": "icg/n9/structural", "kind": "icg", "n": 9, "structural": True, "noxcheck": True})
+    out.append({"key": "icg/n9/structural", "kind": "icg", "n": 9, "structural": True, "noxcheck": True, "timeout_ms": 3000, "max_task_s": 60})
     return out
 
 
